@@ -49,14 +49,20 @@ def ref_get(t, path):
     return True, t
 
 
-def device_must_be_rejected(v) -> bool:
-    """requests that are malformed or unavailable on a host without CUDA/MPS (strings
-    containing "cpu" are outside the claim, see DESIGN C19)"""
-    if isinstance(v, bool) or isinstance(v, int):
+def device_is_cpu_request(v) -> bool:
+    """the well-formed requests a host without CUDA/MPS can serve: None (the default device),
+    "cpu" in any case, "cpu:<index>" (what str(torch.device("cpu", i)) prints)"""
+    if v is None:
         return True
     if isinstance(v, str):
-        return "cpu" not in v.lower()
+        return v.lower() == "cpu" or (v.startswith("cpu:") and v[4:].isdigit() and v.isascii())
     return False
+
+
+def device_must_be_rejected(v) -> bool:
+    """requests that are malformed ("xcpu", "tpu", "", a mapping, ...) or unavailable on a host
+    without CUDA/MPS (cuda*, gpu, mps, device indices)"""
+    return not device_is_cpu_request(v)
 
 
 def set_item_paths(o):
@@ -76,13 +82,15 @@ def op_in_domain(o) -> bool:
     """pure spellings, well-formed mapping values, no dotted keys inside mappings"""
     def val_ok(v):
         return tree_wf(v) and not any("." in k for p, _ in leaf_paths(v) for k in p)
-    if o[0] in ("set", "with"):
+    if o[0] == "raise":
+        return True
+    if o[0] in ("set", "with", "withx"):
         arg = o[1]
         if isinstance(arg, dict) and set(arg) == {"__bad__"}:
             return False
         items = set_item_paths(o)
         ok = all(all(is_pure(c) for c in p) and val_ok(v) for _, p, v in items)
-        if o[0] == "with":
+        if o[0] != "set":
             ok = ok and all(op_in_domain(b) for b in o[3])
         return ok
     if o[0] == "upd":
@@ -94,6 +102,10 @@ def op_in_domain(o) -> bool:
 
 def expected_device(v):
     return "cpu"  # the only device this host validates
+
+
+class _BodyError(Exception):
+    pass
 
 
 class Oracle:
@@ -171,9 +183,10 @@ class Oracle:
         cur = ref_merge(dflts_before)
         written = []
         for p, x in leaf_paths(new):
+            if p:
+                written.append(npath(p))
             if not p or (isinstance(x, dict)) or (p[0] == "device" and len(p) > 1):
                 continue
-            written.append(npath(p))
             had, b = ref_get(before, p)
             dhad, dv = ref_get(cur, p)
             shape_ok = all(not ref_get(before, p[:i])[0] or isinstance(ref_get(before, p[:i])[1], dict)
@@ -208,6 +221,8 @@ class Oracle:
         dflts_before = self.im.dflts_snapshot()
         out = self.im.sop(o)
         after = self.im.snapshot()
+        if o[0] == "raise":
+            return out
         if o[0] == "set":
             self.check_set(o, before, after, out)
         elif o[0] == "upd":
@@ -220,7 +235,7 @@ class Oracle:
     def op(self, o, idx):
         if not op_in_domain(o):
             self.in_domain = False
-        if o[0] != "with":
+        if o[0] not in ("with", "withx"):
             return self.sop(o, "op %d" % idx)
         before = self.im.snapshot()
         try:
@@ -235,7 +250,11 @@ class Oracle:
                 mid = self.im.snapshot()
                 self.check_set(o, before, mid, None)
                 for b in o[3]:
-                    self.sop(b, "op %d body" % idx)
+                    bo = self.sop(b, "op %d body" % idx)
+                    if bo is not None and o[0] == "withx":
+                        raise _BodyError()
+        except _BodyError:
+            pass
         except Exception as e:  # noqa
             if not entered:
                 self.fail("context-manager-no-restore",
@@ -243,11 +262,11 @@ class Oracle:
                           % (", ".join("%s=%r" % (k, v) for k, _, v in set_item_paths(o)), type(e).__name__, e,
                              self.im.snapshot(), before))
                 return "noctx"
-            if not o[3]:
+            if not [b for b in o[3] if b[0] != "raise"]:
                 self.fail("context-manager-exit-raises", "__exit__ raised %s: %s" % (type(e).__name__, e))
             return "exit-raised"
         after = self.im.snapshot()
-        if not o[3] and after != before:
+        if not [b for b in o[3] if b[0] != "raise"] and after != before:
             self.fail("context-manager-no-restore",
                       "after `with config.set(%s): pass` the store is %r, before it was %r"
                       % (", ".join("%s=%r" % (k, v) for k, _, v in set_item_paths(o)), after, before))
@@ -280,13 +299,15 @@ def respell_ops(ops, rng):
         return v
 
     def rop(o):
-        if o[0] in ("set", "with"):
+        if o[0] == "raise":
+            return ["raise"]
+        if o[0] in ("set", "with", "withx"):
             arg = o[1]
             if isinstance(arg, dict) and set(arg) != {"__bad__"}:
                 arg = {rkey(k): rval(v) for k, v in arg.items()}
             kw = [[rkey(k, True), rval(v)] for k, v in o[2]]
-            if o[0] == "with":
-                return ["with", arg, kw, [rop(b) for b in o[3]]]
+            if o[0] != "set":
+                return [o[0], arg, kw, [rop(b) for b in o[3]]]
             return ["set", arg, kw]
         if o[0] == "upd":
             return ["upd", rval(o[1])]
@@ -306,8 +327,6 @@ def respelling_findings(ops, ops2):
         rb = [x["out"] for x in b.op(o2, lambda out: {"out": out})]
         if ra and str(ra[0]).startswith("NoContextManager"):
             return []  # reported by the context-manager clause
-        if o[0] == "with" and o[3]:
-            return []  # a body that rebuilds the store under another spelling is outside the claim
         ta, tb = norm_tree(a.snapshot()), norm_tree(b.snapshot())
         if ta != tb or ra != rb:
             return [("spelling-sensitive-history",
